@@ -91,7 +91,11 @@ encoded strings, wrong only for `Safe$Module` next to `Safe` (C08k: name-order f
 `-` inside `--password=VALUE` (C16k: value styles x every printable character); stale buffer contents
 printed after a transaction larger than 32 KiB (C07k: large outputs); a seed of ASCII hex digits decoded
 "for convenience" (C03k: binary data that looks like text, applied to seeds, keys, digests, entropy, RLP
-strings).  Two things held throughout:
+strings).  Round 12 (17 of 20): an out-of-range `uint8` accepted when written as a zero-padded 32-byte
+word (C09m: padded spellings in C09 and C13); the candidate phrase named in the error text of a failed vanity
+search (C12m: the runner reads stderr of `new`); a second low-s "normalisation" with one mistyped digit in
+its half-order constant, wrong for one signature in 2^19 (C05m: a corpus of signatures whose `s` lies within
+2^-8 .. 2^-24 of n/2, found by signing with the code itself).  Two things held throughout:
 every miss was a missing *input family or observable*, never a wrong theorem or model, and every
 family added for one property was then applied to the others it fits.
 
